@@ -218,6 +218,18 @@ CHECKS = {
         "races inside a step are left to TSan on free-running threads; templates are sampled.",
    technique="TLA+ interleaving specification; every TLC-generated schedule forced on real threads via a yield hook; trace validation of recorded steps; TSan",
    design="6 (C17), appendix E.7"),
+ "C16": dict(
+   text="The allocation ledger is an explicit TLA+ specification (QMem / QMemDefs: set of live block instances, +b / -b / 0 events, transition "
+        "function Apply; ExactlyOnce, NetZero); TLC checks the disciplined client and rejects the double-release and the leaking client. Through "
+        "the library's own accounting seam (Memory::Allocate / Deallocate -> MemoryRecord) the harnesses of C01 / C05 / C12 / C13 / C14 record the "
+        "exact order of allocations and releases per scope - every malformed / truncated / mutated / deep template rendered in 4 widths, tag-cache "
+        "lifetimes (copy, move, copy- / move- / self-assignment, clear and reuse, append, drop, reset), every JSON text up to length 5 (6) and "
+        "random documents with their rejected mutations, random operation histories of Value / HArray / HList / Array / String / StringStream - and "
+        "TLC (OracleMem) folds Apply over every recorded scope: no release of a block that is not live, exactly the blocks live before the scope "
+        "are live after it. The same runs are ASan runs (use after release, double free, foreign free abort the case).",
+   note="use after release is sensed (ASan), not modelled; scopes are sampled inputs / histories, not all of them.",
+   technique="TLA+ ledger specification; TLC batch oracle folding the ledger transition over allocation traces recorded through the library's accounting seam; ASan",
+   design="6 (C16), appendix E.8"),
 }
 PENDING = "not yet claimed in this revision: its specification and conformance harness are still being built (DESIGN.md section 6 describes the plan)"
 m = {
